@@ -21,7 +21,9 @@ REQUIRED = ['C06.resolve_idem', 'C06.defaults_agree', 'C06.stage_opts_effective'
             # the supplied numbers reach the rule each in its own place (seeded C06-7 rilling_thresh[0] for [2], C01-7 fallback
             # options gaining energy_thresh, C06-8 second-layer sift_args without max_imfs): link to the Sift model's options
             'C06.gni_rule_as_supplied', 'C06.rilling_thresh_positions', 'C06.sd_thresh_as_supplied',
-            'C06.no_energy_thresh_unless_supplied', 'C06.second_layer_args_carry_every_option']
+            'C06.no_energy_thresh_unless_supplied', 'C06.second_layer_args_carry_every_option',
+            # partial sift function AND sift_args (seeded C06-5): call-time keywords win
+            'C06.partial_call_keywords_win', 'C06.funcArgs_stage_opts_effective']
 TRUSTED = ['only stage calls inside the chain get_next_imf -> interp_envelope -> get_padded_extrema are observed (the wrappers track nesting); envelopes computed by frequency_transform for the if mask frequency are not sift stages',
            'the three stage functions get_next_imf / interp_envelope / get_padded_extrema are observed by wrapping the public '
            'module attributes from outside (emd.sift.<name> = wrapper, before any pool forks; workers inherit); each wrapper '
@@ -264,7 +266,8 @@ def routes_of(case):
 
 
 def extra_routes_of(case):
-    """Delivery forms that only exist for the second-layer sifts (instance check only, no model op):
+    """Delivery forms that only exist for the second-layer sifts (instance check by outcome; correspondence of the stage-call records
+    with Options.emitFuncArgs / the direct route of the model):
     get_func+args      sift_second_layer(IA, sift_func=<get_func partial of a config holding the top-level options>,
                        sift_args=<the user's option dicts>): partial and keyword dicts combined; the keyword dicts are the
                        SUPPLIED options (ordinary partial semantics: call-time keywords win)       (round-3 change C06/1)
@@ -539,7 +542,16 @@ class Routing(Stream):
                 'imf': _cfg.wire(_cfg.build(case['imf'])) if case['imf'] is not None else 'N',
                 'env': _cfg.wire(_cfg.build(case['env'])) if case['env'] is not None else 'N',
                 'ext': _cfg.wire(_cfg.build(case['ext'])) if case['ext'] is not None else 'N'}
-        return [proto.op('OPTS', dict(args, route=r)) for r in routes_of(case)]
+        ops = [proto.op('OPTS', dict(args, route=r)) for r in routes_of(case)]
+        # the delivery forms of the second-layer sifts (model: Options.emitFuncArgs - partial AND sift_args, C06.funcArgs_stage_opts_effective;
+        # the direct route without max_imfs - C06.second_layer_args_carry_every_option / stage_opts_effective)
+        for r in extra_routes_of(case):
+            if r == 'get_func+args':
+                ops.append(proto.op('OPTS', dict(args, route='get_func+args')))
+            else:
+                top = {k2: _cfg.build(v2) for k2, v2 in case.get('top', []) if k2 != 'max_imfs'}
+                ops.append(proto.op('OPTS', dict(args, route='direct', top=_cfg.wire(top))))
+        return ops
 
     def compare(self, case, out, results):
         if isinstance(out, ImplError):
@@ -549,8 +561,8 @@ class Routing(Stream):
         if out['fallback']:
             return 'skip:stage functions %s cannot be wrapped from outside; output equivalence only' % out['fallback']
         skipped = None
-        for route, r in zip(routes_of(case), results):
-            o = out['routes'][route]
+        for route, r in zip(list(routes_of(case)) + list(extra_routes_of(case)), results):
+            o = out['routes'][route] if route in out['routes'] else out['extra_routes'][route]
             failed = isinstance(o['outcome'], str) and o['outcome'].startswith('e:')
             if r.status == 'err':
                 if not failed:
